@@ -41,6 +41,7 @@ func runC01(c *Ctx, r *Report) {
 	c01TeeKeepsPipeOpen(c, r, "C01.R17")
 	c09DatagramNotDropped(c, r, "C01.R18") // no byte lost on UDP: a datagram the server loop has taken from the socket reader is queued for its association or explicitly released, on every path
 	c01R5(c, r, "C01.R5")
+	c09R4(c, r, "C01.R19") // the order of a UDP client's bytes is the order of its datagrams: each is handed to the association's queue by the loop itself, one blocking send in arrival order (not by goroutines that race for the queue)
 	c01R6(c, r, "C01.R6")
 	c01R7(c, r, "C01.R7")
 	c01R9(c, r, "C01.R9")
@@ -50,8 +51,8 @@ func runC01(c *Ctx, r *Report) {
 	c01TeeRead(c, r, "C01.R13")
 	c02HandlersCompile(c, r, "C01.R15") // a branch's handlers read the stream in the configured order (the second one behind the first one's wrapping)
 	c13R3(c, r, "C01.R16")              // a handed-off connection keeps its matching buffer: the bytes it still has to replay are not recycled under it
-	c09R6(c, r, "C01.R14") // UDP: every queued datagram is its own record and buffer - a burst is delivered datagram by datagram, none read twice or overwritten
-	c13R6(c, r, "C01.R8") // the consumer of a wrapped listener is a "next component" too: what it is handed reads through the layer4 connection
+	c09R6(c, r, "C01.R14")              // UDP: every queued datagram is its own record and buffer - a burst is delivered datagram by datagram, none read twice or overwritten
+	c13R6(c, r, "C01.R8")               // the consumer of a wrapped listener is a "next component" too: what it is handed reads through the layer4 connection
 }
 
 // ---------------- R1: match bracket (typestate) ----------------
